@@ -73,6 +73,11 @@ impl<'a, 'b, 'resources, PathLocatorImpl: PathLocator>
     }
 
     fn apply(self, block: &mut Block, context: &Context) -> RuleProcessResult {
+        // a module that failed to load is still a dependency: once it is fixed,
+        // the bundle has to be generated again
+        for path in self.skip_module_paths.iter() {
+            context.add_file_dependency(path.clone());
+        }
         self.module_definitions.apply(block, context);
         match self.errors.len() {
             0 => Ok(()),
